@@ -649,14 +649,16 @@ class Sym:
                 return Sym(self.p % o.p, is_int=True)
             raise Unsupported("mod by non-positive symbolic int")
         if self.plain and o.plain:
-            # real modulo with python/numpy sign convention (result has sign of divisor)
-            if not _ctx().nonzero(o.real()):
-                return math.nan
-            q = z3.ToReal(z3.ToInt(self.real() / o.real()))
-            r = Sym(self.real() - q * o.real())
-            if self.d is not None:
-                r.d = self.d
-            return r
+            # real modulo (result has the sign of the divisor); decided by case split on the winding number
+            if not bool(o > 0):
+                raise Unsupported("modulo by a non-positive real")
+            for kq in (0, -1, 1, -2, 2):
+                lo_ = o * kq
+                hi_ = o * (kq + 1)
+                if bool((self >= lo_) & (self < hi_)):
+                    r = self - lo_
+                    return r
+            raise Unsupported("modulo: value outside [-2m, 3m)")
         raise Unsupported("mod on log-kind values")
 
     def __rmod__(self, o):
@@ -708,6 +710,12 @@ class Sym:
     def log(self):
         if not self.plain:
             return _ctx().opaque("log", self)
+        inv = _ctx().log_of_atom(self.real())
+        if inv is not None:
+            r = Sym(inv)
+            if self.d is not None:
+                r.d = self.d / self.nod()
+            return r
         if not _ctx().domain(self.real() >= 0, "log of a negative number"):
             return math.nan
         N, D = ratfun(self.real())
